@@ -168,6 +168,17 @@ func (d *Decimal) setString(c *Context, s string) (Condition, error) {
 	if _, ok := d.Coeff.SetString(s, 10); !ok {
 		return 0, fmt.Errorf("parse mantissa: %s", s)
 	}
+	// A numeric string is only accepted if its exponent and its adjusted
+	// exponent are within the package limits, whatever the context would make
+	// of the value (setExponent rounds a value below the lower limit as a
+	// subnormal of the context).
+	var sum int64
+	for _, e := range exps {
+		sum += e
+	}
+	if adj := sum + NumDigits(&d.Coeff) - 1; sum < MinExponent || adj < MinExponent {
+		return c.goError(SystemUnderflow | Underflow)
+	}
 	// No parse errors, can now flag as finite.
 	d.Form = Finite
 	res := d.setExponent(c, unknownNumDigits, 0, exps...)
@@ -371,9 +382,6 @@ func (d *Decimal) setExponent(c *Context, nd int64, res Condition, xs ...int64) 
 	if sum > MaxExponent {
 		return SystemOverflow | Overflow
 	}
-	if sum < MinExponent {
-		return SystemUnderflow | Underflow
-	}
 	r := int32(sum)
 
 	if nd == unknownNumDigits {
@@ -385,7 +393,11 @@ func (d *Decimal) setExponent(c *Context, nd int64, res Condition, xs ...int64) 
 	if adj > MaxExponent {
 		return SystemOverflow | Overflow
 	}
-	if adj < MinExponent {
+	// A value below the lower limit is below every context's MinExponent: it
+	// is a subnormal of c like any other and is rounded as one. Only a normal
+	// number (of many digits) whose exponent is below the limit cannot be
+	// stored.
+	if adj >= int64(c.MinExponent) && sum < MinExponent {
 		return SystemUnderflow | Underflow
 	}
 	v := int32(adj)
